@@ -318,8 +318,8 @@ func c14Tables(v *c14Vec) Result {
 			src = `{{ m := map("k1", "v1", "k2", iv7) }}{{ m.k1 }},{{ m["k2"] }},{{ len(m) }}`
 			want = "v1,7,2"
 		case "mapliteral-intkey":
-			src = `{{ try }}{{ m := map(iv7, "v") }}{{ len(m) }}{{ catch }}error{{ end }}`
-			want = "1|error" // either a one-entry map or an error, never a panic
+			src = `{{ m := map(iv7, "v") }}{{ len(m) }}`
+			want = "1" // a one-entry map (or an error), never a panic
 		case "sliceliteral":
 			src = "{{ range " + bi.Name + "(" + strings.Join(bi.Args, ", ") + ") }}[{{.}}]{{ end }}"
 			for _, x := range bi.Args {
@@ -335,7 +335,10 @@ func c14Tables(v *c14Vec) Result {
 		sig := map[string]interface{}{"kind": "builtin", "name": bi.Name, "go": bi.Go}
 		okOut := out == want
 		if bi.Go == "mapliteral-intkey" {
-			okOut = out == "1" || out == "error"
+			okOut = out == "1"
+			if err != nil && !strings.Contains(err.Error(), "PANIC") {
+				err, okOut = nil, true // a returned error is acceptable for a non-string key
+			}
 		}
 		if err != nil || !okOut {
 			if err != nil && strings.Contains(err.Error(), "PANIC") {
